@@ -207,31 +207,36 @@ def rollLoop (acc : Bool) (idxOf : Nat → Nat) : List S → Nat → List S → 
     let out' ← putAt acc out (idxOf q) x
     rollLoop acc idxOf xs (q + 1) out'
 
+/-- target position, inside one image, of element `q` of its unrolled form -/
+def rollIdx (depth rows cols sr sc fr fc cCount : Nat) (q : Nat) : Nat :=
+  let size := fr * fc
+  let i := q / (size * depth)
+  let j := q % (size * depth)
+  let strideOffset := cols * sr * (i / cCount) + sc * (i % cCount)
+  let d := j / size
+  let fi := j % size
+  (fi % fc) + cols * (fi / fc) + rows * cols * d + strideOffset
+
+/-- the slice operation of `roll_blocks`: one unrolled image in, the image out -/
+def rollOp (acc : Bool) (depth rows cols sr sc fr fc count cCount : Nat) (slices : List (List S)) : R (List S) :=
+  match slices with
+  | [x] =>
+    if x.length < count * (fr * fc) * depth then throw .indexOOB
+    else
+      rollLoop acc (rollIdx depth rows cols sr sc fr fc cCount) (x.take (count * (fr * fc) * depth)) 0
+        (List.replicate (depth * rows * cols) zero)
+  | _ => throw .modelGap
+
 /-- `roll_blocks_op(unrolled, image_dimensions, strides, filter, is_accumulated)` -/
 def rollBlocks (unrolled : Tensor S) (depth rows cols sr sc fr fc : Nat) (acc : Bool) :
     R (Tensor S) := do
   let n := unrolled.dims.length
   let count ← dimFromEnd unrolled.dims 2
-  let size := fr * fc
   if cols < fc then throw .underflow
   if sc = 0 then throw .underflow
   let cCount := (cols - fc) / sc + 1
   let outDims := unrolled.dims.take (n - 2) ++ [depth, rows, cols]
-  let op : List (List S) → R (List S) := fun slices =>
-    match slices with
-    | [x] =>
-      if x.length < count * size * depth then throw .indexOOB
-      else
-        let idxOf := fun q =>
-          let i := q / (size * depth)
-          let j := q % (size * depth)
-          let strideOffset := cols * sr * (i / cCount) + sc * (i % cCount)
-          let d := j / size
-          let fi := j % size
-          (fi % fc) + cols * (fi / fc) + rows * cols * d + strideOffset
-        rollLoop acc idxOf (x.take (count * size * depth)) 0 (List.replicate (depth * rows * cols) zero)
-    | _ => throw .modelGap
-  slicedOp [unrolled] op unrolled.dims outDims 2 0
+  slicedOp [unrolled] (rollOp acc depth rows cols sr sc fr fc count cCount) unrolled.dims outDims 2 0
 
 /-- `expand_conv`: per image, transpose `[windows, filters]` to `[filters, rows, cols]`. -/
 def expandConv (t : Tensor S) (rCount cCount : Nat) : R (Tensor S) := do
